@@ -92,9 +92,10 @@ def make_handlers():
     return contract
 
 
-def wiring(c):
+def wiring(c, max_packet_size=None):
     utmi = UTMIInterface()
-    d = USBSerialDevice(bus=utmi, idVendor=0x16d0, idProduct=0x0f3b)
+    kw = {} if max_packet_size is None else {"max_packet_size": max_packet_size}
+    d = USBSerialDevice(bus=utmi, idVendor=0x16d0, idProduct=0x0f3b, **kw)
     ports = {"rx_data": utmi.rx_data, "rx_active": utmi.rx_active, "rx_valid": utmi.rx_valid, "tx_ready": utmi.tx_ready,
              "line_state": utmi.line_state, "session_end": utmi.session_end,
              "connect": d.connect,
@@ -185,6 +186,15 @@ def wiring(c):
     c.lemma("endpoints_match_the_advertised_descriptors", z3.BoolVal(sorted(adv) == sorted(built)),
             clause=f"(structural) endpoint addresses and max packet sizes of the instantiated endpoints {sorted(built)} equal the "
                    f"endpoint descriptors the device hands to the host {sorted(adv)}")
+    # the OUT endpoint only accepts a packet while its FIFO has room for a maximum-size one: a buffer smaller than the size the
+    # device advertises for that endpoint would make it NAK every packet for ever
+    pref = ".".join(hier(ts, fifo)) + "."
+    depths = [ts.nl.cells[idx].depth for p_, idx in ts.mems.items() if ts._strip(p_).startswith(ts._strip(pref))]
+    adv_out4 = [sz for a, sz in adv if a == 0x04]
+    c.lemma("rx_endpoint_buffer_holds_an_advertised_max_size_packet",
+            z3.BoolVal(len(depths) == 1 and len(adv_out4) == 1 and depths[0] >= adv_out4[0]),
+            clause=f"delivers bytes written by the host: the OUT endpoint's receive FIFO (depth {depths}) can hold a packet of the "
+                   f"wMaxPacketSize the device advertises for it ({adv_out4}), so an empty FIFO accepts every legal packet")
     c.lemma("device_connect_is_usb_connect", ts.of(ts.instance(USBDevice).connect) == I["connect"],
             clause="`connect` is passed to the USB device")
     c.inv("trivial", z3.BoolVal(True))
@@ -193,6 +203,7 @@ def wiring(c):
 def contracts(tier):
     yield ("USBControlEndpoint", "acm_handlers", make_handlers())
     yield ("USBSerialDevice", "utmi_wiring", wiring)
+    yield ("USBSerialDevice", "utmi_wiring_maxpkt512", lambda c: wiring(c, 512))
     # caller side (parameter plumbing): the descriptors the serial device creates are the ones its control endpoint serves,
     # in packets of the EP0 size those descriptors advertise; and the standard request handler inside the device is the
     # configuration part (A) composes
